@@ -717,9 +717,15 @@ theorem good_stepCreated {cap : Cap} {L R : Bool} (p : Pool) (t : Nat) (tk : PTa
     split
     · exact good_afterWorker _ t _ hg2 _ hc2 hw2
     · exact good_afterWorker _ t _ hg2 _ hc2 hw2
-    · refine (good_suspend _ t .inWorker hg2 _ hc2 (fun _ => hw.rel) (fun h => ?_) ?_ (by simp [SoftP.setPhase])).1
-      · rw [t2.can] at h; exact absurd h hnc
-      · exact (hc2.ok hg2).toInWorker (Or.inr rfl)
+    · -- the first suspension point: the number of awaits still to come is noted (no invariant talks about it)
+      have t3 := tame_modTask (((p.logEv (Ev.started t tk.arg)).modTask t
+        (fun k => { k with phase := .inWorker, fut := .ok, unstarted := false })).runHooks tk.req (p.reqOf tk).hooks.start) t
+        (fun k => { k with awaitsLeft := (p.reqOf tk).wspec.awaits })
+      have hg3 := t3.good hg2
+      have hc3 := t3.cur hc2
+      refine (good_suspend _ t .inWorker hg3 _ hc3 (fun _ => hw.rel) (fun h => ?_) ?_ (by simp [SoftP.setPhase])).1
+      · rw [t3.can, t2.can] at h; exact absurd h hnc
+      · rw [t3.lost]; exact (hc2.ok hg2).toInWorker (Or.inr rfl)
 
 def _root_.Taskpool.SoftP.sawCancel (s : SoftP) : SoftP := { s with phase := .wrapUp, nSaw := s.nSaw + 1 }
 
@@ -759,6 +765,19 @@ theorem good_workerCancelled {cap : Cap} {L R : Bool} (p : Pool) (t : Nat) (tk :
   · exact good_afterWorker _ t _ hg1 _ hc1 ⟨hw.rel, hw.ncc, hw.wc, by simp [SoftP.sawCancel]⟩
   · exact good_taskCancellation _ t tk hg1 _ hc1 rfl hw.rel hw.ncc hw.wc hspec hnc
 
+/-- the awaited future completed and the worker goes on to its next suspension point: nothing the invariants talk about
+changes (the task is in phase `inWorker` before and after) -/
+theorem good_workerNext {cap : Cap} {L R : Bool} (p : Pool) (t : Nat) (hg : Good cap L R p) (s : SoftP) (hc : p.Cur t s)
+    (hw : InWork s) (hnc : t ∉ p.cancelledR) (hph : s.phase = .inWorker) :
+    Good cap L R (p.workerNext t) := by
+  unfold workerNext
+  have t1 : Tame p ((p.logEv (Ev.next t)).modTask t fun k => { k with awaitsLeft := k.awaitsLeft - 1 }) :=
+    (tame_logEv p (Ev.next t)).trans (tame_modTask _ t _)
+  have hs : s.setPhase .inWorker = s := by rw [← hph]; rfl
+  refine (good_suspend _ t .inWorker (t1.good hg) s (t1.cur hc) (fun _ => hw.rel) (fun h => ?_) ?_ hw.nf).1
+  · rw [t1.can] at h; exact absurd h hnc
+  · rw [hs, t1.lost]; exact hc.ok hg
+
 theorem good_stepInWorker {cap : Cap} {L R : Bool} (p : Pool) (t : Nat) (tk : PTask) (hg : Good cap L R p) (s : SoftP) (hc : p.Cur t s)
     (hph : s.phase = .inWorker) (hspec : tk.cancelCb = s.cancelCb) : Good cap L R (p.stepInWorker t tk) := by
   have hw := inWork_of hc hg (Or.inr hph)
@@ -772,7 +791,14 @@ theorem good_stepInWorker {cap : Cap} {L R : Bool} (p : Pool) (t : Nat) (tk : PT
     rw [hx] at hy; cases hy
     exact hni (by rw [← hs] at hph; exact hph)
   · split
-    · exact good_afterWorker p t _ hg s hc hw
+    · split
+      · refine good_workerNext p t hg s hc hw ?_ hph
+        intro hmem
+        obtain ⟨x, hx, hs⟩ := hc
+        obtain ⟨y, hy, _, _, hni⟩ := hg.reg.can t hmem
+        rw [hx] at hy; cases hy
+        exact hni (by rw [← hs] at hph; exact hph)
+      · exact good_afterWorker p t _ hg s hc hw
     · exact good_afterWorker p t _ hg s hc hw
     · exact hg
 
